@@ -24,7 +24,7 @@ RULE = ("(a) controlled schedules: every object-pair and metadata-pair scenario 
         "distinct (call, start state, fault site, errno, persistence) fault runs.")
 ASSUMPTIONS = ["every wait loop's predicate is membership in a locked list, so empty lists imply no future waiter can block",
                "the wall-clock watchdog only yields 'inconclusive'"]
-SYMPTOMS = {"deadlock", "leaked-lock", "follow-up-blocked"}
+SYMPTOMS = {"deadlock", "leaked-lock", "follow-up-blocked", "call-does-not-terminate"}
 WATCHDOG_S = 7200
 
 
